@@ -26,7 +26,7 @@ def P4q(v):
     return "(%s, %s, %s, %s)" % tuple(Rq(x) for x in v)
 
 
-def build(rnd, J_list=None, nres=None):
+def build(rnd, J_list=None, nres=None, beyond=False):
     mf = {k: rnd.uniform(0.1, 0.5) for k in ampkit.FINALS}
     M0 = sum(mf.values()) + rnd.uniform(0.8, 2.0)
     pairs = list(ampkit.PAIRS)
@@ -37,7 +37,8 @@ def build(rnd, J_list=None, nres=None):
         i, j, k = ampkit.PAIRS[pr]
         J = J_list[n] if J_list else rnd.randrange(0, 5)
         lo, hi = mf[i] + mf[j], M0 - mf[k]
-        res[pr] = {"pair": pr, "J": J, "P": (1 if J % 2 == 0 else -1), "mass": rnd.uniform(lo + 0.05, hi + 0.15), "width": rnd.uniform(0.03, 0.3)}
+        mass = rnd.uniform(hi + 0.02, hi + 0.15) if (beyond and n == 0) else rnd.uniform(lo + 0.05, hi + 0.15)
+        res[pr] = {"pair": pr, "J": J, "P": (1 if J % 2 == 0 else -1), "mass": mass, "width": rnd.uniform(0.03, 0.3)}
     return M0, mf, res
 
 
@@ -197,9 +198,10 @@ def run(ctx):
     common.theorem_stage(ctx)
     cases = []
     quick = ctx.tier == "quick"
-    plans = [([J], 1) for J in range(5)] + [(None, 3)] if quick else [([J], 1) for J in range(5)] * 2 + [(None, None)] * 30
-    for n, (Jl, nres) in enumerate(plans):
-        M0, mf, res = build(rnd, Jl, nres)
+    plans = [([J], 1, False) for J in range(5)] + [(None, 3, False), ([1, 2], 2, True), ([3], 1, True)] if quick else \
+        [([J], 1, False) for J in range(5)] * 2 + [([J, 2], 2, True) for J in range(1, 5)] + [(None, None, False)] * 30
+    for n, (Jl, nres, beyond) in enumerate(plans):
+        M0, mf, res = build(rnd, Jl, nres, beyond)
         cfg = run_config(ctx, rnd, "g%d" % n, M0, mf, res, 3 if quick else 5, cases)
         if n == 0:
             ctx.sample({"config": cfg})
